@@ -212,7 +212,7 @@ func ruleUpgradeAddress(ctx *Ctx, rule string) {
 	}
 	// (a) pointer expected on a struct list: the returned address adds the data section
 	okPtr, okData, okGuard := false, false, false
-	for _, b := range f.Blocks {
+	for _, b := range frameBlocks(f) {
 		for _, in := range b.Instrs {
 			ret, ok := in.(*ssa.Return)
 			if !ok || len(ret.Results) != 2 || !ssaq.IsNilConst(ret.Results[1]) {
